@@ -46,6 +46,8 @@ pub struct Stats {
     pub deviations: BTreeMap<String, (u64, J)>,
     pub caps: BTreeSet<String>,
     pub samples: Vec<J>,
+    /// first example per violated clause (bounded), for diagnosis
+    pub examples: BTreeMap<String, J>,
 }
 
 const MAX_VIOL_KEPT: usize = 40;
@@ -67,6 +69,11 @@ impl Stats {
             e.0 += n;
         }
         self.caps.extend(o.caps);
+        for (k, v) in o.examples {
+            if self.examples.len() < 200 {
+                self.examples.entry(k).or_insert(v);
+            }
+        }
         if self.samples.len() < 6 {
             self.samples.extend(o.samples.into_iter().take(2));
         }
@@ -81,6 +88,9 @@ impl Stats {
         }
     }
     pub fn violate(&mut self, order: u64, clause: &str, case: J, replay: J) {
+        if self.examples.len() < 200 && !self.examples.contains_key(clause) {
+            self.examples.insert(clause.to_string(), case.clone());
+        }
         if self.violations.len() < MAX_VIOL_KEPT || self.violations.iter().any(|v| v.order > order) {
             self.violations.push(Violation { order, clause: clause.to_string(), case, replay });
             self.violations.sort_by_key(|v| v.order);
@@ -188,6 +198,11 @@ pub fn finish(rep: Report, mut st: Stats, start: Instant) -> i32 {
         }
     }
 
+    if std::env::var("VERIF_VERBOSE").is_ok() {
+        for (k, v) in &st.examples {
+            eprintln!("example[{k}]: {}", trunc(&v.to_string(), 1500));
+        }
+    }
     let exhaustive = rep.exhaustive && st.caps.is_empty();
     let vacuous = st.outcomes.len() <= 1 && st.evaluations > 10;
     let mut coverage = json!({
